@@ -30,7 +30,8 @@ import nlx
 RULE = ('seeded designs = gen_designs.make_design + C04 structure (const exprs, one-const 1-bit gates, '
         'swapped-argument duplicates of & | ^ nand + * == - < > concat mux, duplicated Const objects, '
         'registers of constants and chains of them, write-only memory logic, dead logic, w / full-slice chains) '
-        'plus 3 directed witnesses; x form {word, synth, nand, aig} x pass {optimize, constant_propagation, '
+        'plus 8 directed witnesses (multi-bit constant nand, duplicate constant memory writes, swapped non-commutative ops, '
+        'same-width permuting selects next to identity slices, word-level & | ^ nand against 0 / all-ones / middle constants) with fixed distinguishing stimulus; x form {word, synth, nand, aig} x pass {optimize, constant_propagation, '
         'common_subexp_elimination, _remove_wire_nets, _remove_slice_nets, _remove_unlistened_nets} x '
         'applications {1, 2}; a case is distinct by (design, form, pass, reps, output trace) and non-trivial '
         'when the pass changed the netlist (folded / merged / removed at least one net or wire) and at least one Output varies')
@@ -258,42 +259,90 @@ def extend_design(rng, d, heavy, maxw=8):
         d.outputs.append(o)
 
 
+def raw_select(src, idx, name):
+    """a hand-built 's' net (what a netlist importer or a transform may produce)"""
+    t = pyrtl.WireVector(len(idx), name)
+    pyrtl.working_block().add_net(pyrtl.LogicNet('s', tuple(idx), (src,), (t,)))
+    return t
+
+
 def directed(kind):
-    """hand-picked witnesses, built through the API"""
+    """hand-picked witnesses; every interesting wire feeds an Output, and `d.stimulus`
+    (when set) is a fixed input sequence that distinguishes a wrong fold / removal"""
     pyrtl.reset_working_block()
     d = gen_designs.Design(pyrtl.working_block())
-    a = pyrtl.Input(2, 'a')
-    d.inputs.append(a)
+    d.stimulus = None
+    outs = []
+    if kind.startswith('wordconst_'):
+        # word-level bitwise op against Const 0 / all-ones / a middle constant of the SAME
+        # width (2..8), constant in either argument position: must NOT be folded by the
+        # 1-bit one-constant rule
+        op = kind[len('wordconst_'):]
+        a = pyrtl.Input(8, 'a')
+        d.inputs.append(a)
+
+        def f(x, y):
+            return {'and': x & y, 'or': x | y, 'xor': x ^ y, 'nand': x.nand(y)}[op]
+        for w in range(2, 9):
+            x = a[:w]
+            top = (1 << w) - 1
+            for c in (0, top, (0x5A >> (8 - w)) & top or 1):
+                outs.append(f(x, pyrtl.Const(c, bitwidth=w)))
+                outs.append(f(pyrtl.Const(c, bitwidth=w), x))
+        outs.append(a[0:8] ^ a[:])           # full-width identity slices next to them
+        d.stimulus = [{'a': v} for v in (0, 255, 0xA5, 0x5A, 1, 128, 0x3C, 0xC3, 0x0F, 0x96)]
+    elif kind == 'perm_selects':
+        # same-width selects that PERMUTE bits (must be kept) next to full-width identity
+        # slices (must be removed), built via slices and via raw 's' nets
+        a = pyrtl.Input(4, 'a')
+        b = pyrtl.Input(3, 'b')
+        c = pyrtl.Input(8, 'c')
+        d.inputs += [a, b, c]
+        outs += [a[::-1], a[::-1][::-1], ~a[::-1], b[::-1], c[::-1], c[::-1] ^ c,
+                 raw_select(a, (0, 2, 1, 3), 'swz0'), raw_select(a, (1, 2, 3, 0), 'rotr'),
+                 raw_select(a, (3, 0, 1, 2), 'rotl'), raw_select(a, (3, 2, 1, 0), 'rev4'),
+                 raw_select(a, (2, 3, 0, 1), 'swp2'), raw_select(b, (2, 1, 0), 'rev3'),
+                 raw_select(b, (1, 0, 2), 'swp3'), raw_select(b, (1, 2, 0), 'rot3'),
+                 raw_select(c, (4, 5, 6, 7, 0, 1, 2, 3), 'nib'), raw_select(c, (1, 0, 3, 2, 5, 4, 7, 6), 'pair'),
+                 raw_select(a, (0, 0, 1, 1), 'dup0'), raw_select(a, (1, 2, 3, 3), 'dup1'),
+                 ~raw_select(a, (1, 0, 2, 3), 'swz1'),
+                 # identities (these SHOULD be removed by _remove_slice_nets)
+                 a[0:4], a[:], ~a[0:4], raw_select(a, (0, 1, 2, 3), 'id4'), raw_select(b, (0, 1, 2), 'id3'),
+                 b[0:3] ^ b[::-1], c[0:8], raw_select(c, tuple(range(8)), 'id8')]
+        d.stimulus = [{'a': i, 'b': (i * 3 + 1) % 8, 'c': (i * 37 + 1) % 256} for i in range(16)]
+    else:
+        a = pyrtl.Input(2, 'a')
+        d.inputs.append(a)
     if kind == 'nand_const':                 # F3: 'n' fold of two multi-bit Consts
-        o = pyrtl.Output(2, 'o')
-        o <<= a ^ pyrtl.Const(3, 2).nand(pyrtl.Const(3, 2))
-        o2 = pyrtl.Output(3, 'o2')
-        o2 <<= pyrtl.concat(a, a[0]) | pyrtl.Const(5, 3).nand(pyrtl.Const(6, 3))
-        d.outputs += [o, o2]
+        outs += [a ^ pyrtl.Const(3, 2).nand(pyrtl.Const(3, 2)),
+                 pyrtl.concat(a, a[0]) | pyrtl.Const(5, 3).nand(pyrtl.Const(6, 3))]
     elif kind == 'memwr_dup':                # two write ports with identical constant operands
         m = pyrtl.MemBlock(4, 2, 'm', max_write_ports=None, asynchronous=True)
         d.mems.append(m)
-        o = pyrtl.Output(4, 'o')
-        o <<= m[a]
+        outs.append(pyrtl.as_wires(m[a]))
         m[pyrtl.Const(1, 2)] <<= pyrtl.MemBlock.EnabledWrite(pyrtl.Const(5, 4), pyrtl.Const(1, 1))
         m[pyrtl.Const(1, 2)] <<= pyrtl.MemBlock.EnabledWrite(pyrtl.Const(5, 4), pyrtl.Const(1, 1))
-        d.outputs.append(o)
     elif kind == 'swap_noncomm':             # a-b / b-a, a<b / b<a, concat, mux
         b = pyrtl.Input(2, 'b')
         s = pyrtl.Input(1, 's')
         d.inputs += [b, s]
-        for i, t in enumerate([a - b, b - a, a < b, b < a, a > b, b > a, pyrtl.concat(a, b),
-                               pyrtl.concat(b, a), pyrtl.select(s, a, b), pyrtl.select(s, b, a),
-                               a - b, a & b, b & a, a.nand(b), b.nand(a), a + b, b + a, a * b, b * a,
-                               a == b, b == a]):
-            o = pyrtl.Output(len(t), 'o%d' % i)
-            o <<= t
-            d.outputs.append(o)
+        outs += [a - b, b - a, a < b, b < a, a > b, b > a, pyrtl.concat(a, b),
+                 pyrtl.concat(b, a), pyrtl.select(s, a, b), pyrtl.select(s, b, a),
+                 a - b, a & b, b & a, a.nand(b), b.nand(a), a + b, b + a, a * b, b * a,
+                 a == b, b == a]
+        d.stimulus = [{'a': i % 4, 'b': (i // 4) % 4, 's': (i // 3) % 2} for i in range(16)]
+    for i, t in enumerate(outs):
+        o = pyrtl.Output(len(t), 'o%d' % i)
+        o <<= t
+        d.outputs.append(o)
     d.ops.append('directed:' + kind)
     return d
 
 
-DIRECTED = ['nand_const', 'memwr_dup', 'swap_noncomm']
+DIRECTED = ['nand_const', 'memwr_dup', 'swap_noncomm', 'perm_selects',
+            'wordconst_and', 'wordconst_or', 'wordconst_xor', 'wordconst_nand']
+# gate-level forms of the word-constant witnesses are large and contain only 1-bit gates
+DIRECTED_FORMS = {k: (['word'] if k.startswith('wordconst_') else ['word', 'synth']) for k in DIRECTED}
 
 
 GATE_OPS = ['&', '|', '^', '~', 'nand', '+', '-', '<', '>', '==', 'mux', 'const', 'slice', 'index',
@@ -551,8 +600,13 @@ def culprit(orig_nets_by_dest, res_block, spec_by_name, tracer, ncyc):
 
 
 def signature_for(pname, op, net):
-    if op == 'n' and net is not None and net.dests and net.dests[0].bitwidth > 1:
-        return 'constfold:nand-multibit'
+    """stable, predicate-based: which rewrite went wrong"""
+    if net is not None and net.dests and net.dests[0].bitwidth > 1 and op in ('&', '|', '^', 'n'):
+        nconst = sum(isinstance(a, pyrtl.Const) for a in net.args)
+        if op == 'n' and nconst == len(net.args):
+            return 'constfold:nand-multibit'
+        if nconst == 1:
+            return 'constfold:one-const-multibit:%s' % op
     return '%s:%s' % (pname, op)
 
 
@@ -585,7 +639,7 @@ def run(ctx):
     model_exprs = []
     model_index = []    # (case index, list of (pass, reps))
     for i in range(ndesigns):
-        forms = FORMS if i >= len(DIRECTED) else ['word', 'synth']
+        forms = FORMS if i >= len(DIRECTED) else DIRECTED_FORMS[DIRECTED[i]]
         for form in forms:
             rng = ctx.sub_rng('stim', i, form)
             # ---- one build per (design, form); the in-place passes are undone by restoring
@@ -597,7 +651,7 @@ def run(ctx):
                 continue
             nnets0 = len(block.logic)
             if nnets0 > (320 if quick else 700):
-                ctx.count('skipped', 'too-large')
+                ctx.count('skipped', 'too-large (design %d %s: %d nets)' % (i, form, nnets0))
                 continue
             with quiet():
                 block.sanity_check()
@@ -616,6 +670,11 @@ def run(ctx):
             # ---- the original: dump, stimulus, steady-state proviso
             ncyc = rng.randint(3, ncyc_max if form == 'word' else 4)
             regs, regmap, memmap, inputs = make_stimulus(rng, block, ncyc)
+            if getattr(d, 'stimulus', None):
+                inputs = [dict(st) for st in d.stimulus]    # directed: a distinguishing sequence
+                if form != 'word':
+                    inputs = inputs[1:7]                    # gate-level evaluation is costly
+                ncyc = len(inputs)
             steady = {}
             if eliminated:
                 pre_inputs = (inputs * (len(regs) + 2))[:len(regs) + 2]
@@ -823,8 +882,12 @@ def run(ctx):
             rw, rn = r['exact']
             if pname in CSE_LIKE:
                 intern = {}
+                # which member of a CSE class survives decides which (equal-valued) Const OBJECTS stay
+                # in use, so Const wires are compared as a set of (width, value), other wires by count
+                def wire_summary(ws):
+                    return (sum(1 for x in ws if x[0] == 'w'), sorted({x for x in ws if x[0] == 'c'}))
                 same = canon_quot(mw, mn, c['named'], intern) == canon_quot(rw, rn, c['named'], intern) \
-                    and len(mw) == len(rw)
+                    and wire_summary(mw) == wire_summary(rw)
             else:
                 same = canon_exact(mw, mn) == canon_exact(rw, rn)
             if same:
